@@ -1365,3 +1365,341 @@ Proof.
     inversion Dc; subst ns'. exact (proj1 (set_names_ok_iff _ _) Sn k s I).
   - apply in_map_iff in I. destruct I as [x [X _]]. discriminate.
 Qed.
+
+(* ------------------------------------------------------------------ *)
+(* Instantiation histories and binding                                  *)
+
+(* the two attribute names instantiation sets on the class *)
+Definition pubkeys : list string := ["state_names"; "state_descriptions"].
+
+Lemma pubkeys_false k : mem k pubkeys = false <-> k <> "state_names" /\ k <> "state_descriptions".
+Proof.
+  rewrite mem_false. cbn [pubkeys In]. split.
+  - intros H. split; intros E; apply H; auto.
+  - intros [A B] [E|[E|[]]]; congruence.
+Qed.
+
+(* a dict without those two keys *)
+Definition strip {V} (d : dict V) : dict V :=
+  filter (fun kv => negb (mem (fst kv) pubkeys)) d.
+
+Lemma strip_cons {V} k (v : V) d :
+  strip ((k, v) :: d) = if mem k pubkeys then strip d else (k, v) :: strip d.
+Proof. unfold strip. cbn [filter fst]. destruct (mem k pubkeys); reflexivity. Qed.
+
+Lemma strip_set_in {V} k (v : V) d : mem k pubkeys = true -> strip (dict_set k v d) = strip d.
+Proof.
+  intros M. induction d as [|[k1 v1] r IH]; cbn [dict_set].
+  - rewrite strip_cons, M. reflexivity.
+  - destruct (String.eqb_spec k1 k) as [E|E].
+    + subst k1. rewrite !strip_cons, M. reflexivity.
+    + rewrite !strip_cons, IH. reflexivity.
+Qed.
+
+Lemma strip_set_out {V} k (v : V) d :
+  mem k pubkeys = false -> strip (dict_set k v d) = dict_set k v (strip d).
+Proof.
+  intros M. induction d as [|[k1 v1] r IH]; cbn [dict_set].
+  - rewrite strip_cons, M. reflexivity.
+  - destruct (String.eqb_spec k1 k) as [E|E].
+    + subst k1. rewrite !strip_cons, M. cbn [dict_set]. rewrite String.eqb_refl. reflexivity.
+    + rewrite !strip_cons, IH. destruct (mem k1 pubkeys); [reflexivity|].
+      cbn [dict_set]. destruct (String.eqb_spec k1 k); [contradiction | reflexivity].
+Qed.
+
+Lemma strip_update {V} (src : list (string * V)) : forall d,
+  strip (dict_update d src) = dict_update (strip d) (strip src).
+Proof.
+  unfold dict_update. induction src as [|[k v] r IH]; intros d; cbn [fold_left fst snd].
+  - reflexivity.
+  - rewrite IH, strip_cons. destruct (mem k pubkeys) eqn:M.
+    + rewrite strip_set_in by exact M. reflexivity.
+    + rewrite strip_set_out by exact M. reflexivity.
+Qed.
+
+Lemma strip_class_members mro : strip (class_members mro) = class_members (map strip mro).
+Proof.
+  induction mro as [|b r IH]; [reflexivity|].
+  cbn [map]. rewrite !class_members_cons, strip_update, IH. reflexivity.
+Qed.
+
+Lemma strip_publish (d : dict member) : strip (publish_class_attrs d) = strip d.
+Proof. unfold publish_class_attrs. rewrite !strip_set_in; reflexivity. Qed.
+
+Lemma In_dict_set {V} k (v : V) k' m d :
+  In (k', m) (dict_set k v d) -> (k' = k /\ m = v) \/ In (k', m) d.
+Proof.
+  induction d as [|[k1 v1] r IH]; cbn [dict_set].
+  - intros [H|[]]. inversion H; subst. left. split; reflexivity.
+  - destruct (String.eqb_spec k1 k) as [E|E].
+    + intros [H|H]; [inversion H; subst; left; split; reflexivity | right; right; exact H].
+    + intros [H|H]; [right; left; exact H|]. destruct (IH H) as [A|A]; [left; exact A | right; right; exact A].
+Qed.
+
+Lemma publish_states (d : dict member) k s : In (k, MState s) (publish_class_attrs d) -> In (k, MState s) d.
+Proof.
+  unfold publish_class_attrs. intros H.
+  apply In_dict_set in H. destruct H as [[_ H]|H]; [discriminate|].
+  apply In_dict_set in H. destruct H as [[_ H]|H]; [discriminate | exact H].
+Qed.
+
+(* the loop of _build_states does not see non-states *)
+Lemma build_loop_strip ms :
+  (forall k s, In (k, MState s) ms -> mem k pubkeys = false) ->
+  forall st, build_loop (strip ms) st = build_loop ms st.
+Proof.
+  induction ms as [|[k m] r IH]; intros H st; [reflexivity|].
+  assert (Hr : forall k s, In (k, MState s) r -> mem k pubkeys = false)
+    by (intros k' s' I; apply (H k' s'); right; exact I).
+  rewrite strip_cons. destruct m as [s|].
+  - rewrite (H k s) by (left; reflexivity). cbn [build_loop].
+    rewrite !(IH Hr). reflexivity.
+  - destruct (mem k pubkeys); cbn [build_loop]; apply (IH Hr).
+Qed.
+
+Lemma lookup_last_In {V} k (b : list (string * V)) v : lookup_last k b = Some v -> In (k, v) b.
+Proof.
+  induction b as [|[k1 v1] r IH]; cbn [lookup_last]; [discriminate|].
+  destruct (lookup_last k r) as [w|].
+  - intros H. right. apply IH. exact H.
+  - destruct (String.eqb_spec k1 k); [|discriminate]. intros H. inversion H; subst. left. reflexivity.
+Qed.
+
+Lemma effective_In mro k m : effective mro k = Some m -> exists d, In d mro /\ In (k, m) d.
+Proof.
+  induction mro as [|b r IH]; cbn [effective]; [discriminate|].
+  destruct (lookup_last k b) as [w|] eqn:L.
+  - intros H. inversion H; subst. exists b. split; [left; reflexivity | apply lookup_last_In, L].
+  - intros H. destruct (IH H) as [d [A B]]. exists d. split; [right; exact A | exact B].
+Qed.
+
+Lemma build_states_strip mro :
+  (forall d k s, In d mro -> In (k, MState s) d -> mem k pubkeys = false) ->
+  build_states mro = build_states (map strip mro).
+Proof.
+  intros H. unfold build_states. rewrite <- strip_class_members, build_loop_strip; [reflexivity|].
+  intros k s I. apply class_members_In, effective_In in I. destruct I as [d [A B]]. exact (H d k s A B).
+Qed.
+
+(* two class tables that agree on everything but the two published keys *)
+Definition same_but_published (a b : list (dict member)) : Prop :=
+  forall i, strip (nth i b []) = strip (nth i a []).
+
+Lemma instantiate_same a b mro :
+  same_but_published a b -> published_free a -> published_free b ->
+  instantiate b mro = instantiate a mro.
+Proof.
+  intros S Fa Fb. unfold instantiate.
+  assert (G : forall t, published_free t ->
+            forall d k s, In d (map (fun i => nth i t []) mro) -> In (k, MState s) d -> mem k pubkeys = false).
+  { intros t Ft d k s I J. apply in_map_iff in I. destruct I as [i [E _]]. subst d.
+    destruct (nth_in_or_default i t []) as [N|N].
+    - apply pubkeys_false. exact (Ft _ k s N J).
+    - rewrite N in J. destruct J. }
+  rewrite (build_states_strip _ (G b Fb)), (build_states_strip _ (G a Fa)).
+  f_equal. rewrite !map_map. apply map_ext. intros i. apply S.
+Qed.
+
+Lemma update_nth_strip (l : list (dict member)) : forall c i,
+  strip (nth i (update_nth c publish_class_attrs l) []) = strip (nth i l []).
+Proof.
+  induction l as [|x r IH]; intros c i; cbn [update_nth]; [reflexivity|].
+  destruct c as [|c]; destruct i as [|i]; cbn [nth]; try reflexivity.
+  - apply strip_publish.
+  - apply IH.
+Qed.
+
+Lemma update_nth_In {A} (f : A -> A) (l : list A) : forall c x,
+  In x (update_nth c f l) -> In x l \/ exists y, In y l /\ x = f y.
+Proof.
+  induction l as [|a r IH]; intros c x; cbn [update_nth]; [intros []|].
+  destruct c as [|c].
+  - intros [H|H]; [right; exists a; split; [left; reflexivity | symmetry; exact H] | left; right; exact H].
+  - intros [H|H]; [left; left; exact H|].
+    destruct (IH c x H) as [A0|[y [A0 B0]]]; [left; right; exact A0 | right; exists y; split; [right; exact A0 | exact B0]].
+Qed.
+
+Lemma update_nth_free l c : published_free l -> published_free (update_nth c publish_class_attrs l).
+Proof.
+  intros F d k s I J. apply update_nth_In in I. destruct I as [I|[y [I E]]].
+  - exact (F d k s I J).
+  - subst d. apply publish_states in J. exact (F y k s I J).
+Qed.
+
+(* every step keeps the class table as it was, up to the two published keys *)
+Lemma step_invariant dicts w ev :
+  same_but_published dicts (w_dicts w) -> published_free (w_dicts w) ->
+  same_but_published dicts (w_dicts (fst (step w ev))) /\ published_free (w_dicts (fst (step w ev))).
+Proof.
+  intros S F. destruct ev as [mro cname|key v]; cbn [step].
+  2:{ cbn [fst w_dicts]. split; assumption. }
+  destruct (instantiate (w_dicts w) mro) as [r|e]; cbn [fst w_dicts]; [|split; assumption].
+  destruct mro as [|c mro']; [split; assumption|]. split.
+  - intros i. rewrite update_nth_strip. apply S.
+  - apply update_nth_free, F.
+Qed.
+
+(* strings: a common prefix can be dropped *)
+Lemma append_inv_head (p a b : string) : (p ++ a = p ++ b)%string -> a = b.
+Proof.
+  induction p as [|c p IH]; cbn [append]; [auto|].
+  intros H. inversion H. apply IH. assumption.
+Qed.
+
+Lemma topic_inj_leaf cname l1 l2 : topic cname l1 = topic cname l2 -> l1 = l2.
+Proof.
+  unfold topic. intros H.
+  apply append_inv_head, append_inv_head, append_inv_head in H. exact H.
+Qed.
+
+Lemma topics_differ cname : topic cname "state_names" <> topic cname "state_descriptions".
+Proof. intros H. apply topic_inj_leaf in H. discriminate. Qed.
+
+(* setup_tunables writes the lists of the machine onto its two topics,
+   whatever they held; no other topic changes *)
+Theorem bind_overwrites nt cname r :
+  dict_get (topic cname "state_names") (bind_machine nt cname r) = Some (r_names r) /\
+  dict_get (topic cname "state_descriptions") (bind_machine nt cname r) = Some (r_descs r) /\
+  forall key, key <> topic cname "state_names" -> key <> topic cname "state_descriptions" ->
+    dict_get key (bind_machine nt cname r) = dict_get key nt.
+Proof.
+  unfold bind_machine, bind_tunable, names_tunable, descs_tunable, mk_tunable.
+  cbn [t_write_default t_default]. rewrite !dict_get_set, String.eqb_refl.
+  split; [reflexivity|]. split.
+  - destruct (String.eqb_spec (topic cname "state_names") (topic cname "state_descriptions")) as [E|E].
+    + exfalso. exact (topics_differ cname E).
+    + rewrite String.eqb_refl. reflexivity.
+  - intros key A B. rewrite !dict_get_set.
+    destruct (String.eqb_spec (topic cname "state_names") key); [congruence|].
+    destruct (String.eqb_spec (topic cname "state_descriptions") key); [congruence|]. reflexivity.
+Qed.
+
+Lemma step_inst_outcome dicts w mro cname :
+  same_but_published dicts (w_dicts w) -> published_free dicts -> published_free (w_dicts w) ->
+  snd (step w (EInst mro cname)) = class_outcome dicts mro.
+Proof.
+  intros S F Fw. unfold class_outcome. cbn [step].
+  rewrite (instantiate_same dicts (w_dicts w) mro S F Fw).
+  destruct (instantiate dicts mro) as [r|e]; cbn [snd]; [|reflexivity].
+  destruct (bind_overwrites (w_nt w) cname r) as (A & B & _).
+  unfold read_tunable. rewrite A, B. reflexivity.
+Qed.
+
+Lemma run_history_nth dicts h : forall w k mro cname,
+  same_but_published dicts (w_dicts w) -> published_free dicts -> published_free (w_dicts w) ->
+  nth_error h k = Some (EInst mro cname) ->
+  nth_error (run_history w h) k = Some (class_outcome dicts mro).
+Proof.
+  induction h as [|ev r IH]; intros w k mro cname S F Fw N; [destruct k; discriminate|].
+  cbn [run_history]. destruct (step w ev) as [w' o] eqn:St.
+  destruct k as [|k]; cbn [nth_error] in N |- *.
+  - inversion N; subst ev. f_equal.
+    change o with (snd (w', o)). rewrite <- St. apply step_inst_outcome; assumption.
+  - destruct (step_invariant dicts w ev S Fw) as [S' F']. rewrite St in S', F'. cbn [fst] in S', F'.
+    exact (IH w' k mro cname S' F F' N).
+Qed.
+
+(* The verdict (and the published lists) of attempt k is that of its class:
+   whatever was instantiated, bound or published before -- successfully or
+   not, the same class or another, any number of times -- and whatever the
+   topics held. *)
+Theorem history_independent dicts nt h k mro cname :
+  published_free dicts ->
+  nth_error h k = Some (EInst mro cname) ->
+  nth_error (run_history {| w_dicts := dicts; w_nt := nt |} h) k = Some (class_outcome dicts mro).
+Proof.
+  intros F N. apply (run_history_nth dicts h _ k mro cname); cbn [w_dicts]; try assumption.
+  intros i. reflexivity.
+Qed.
+
+(* .. so attempt k succeeds iff the class has exactly one first state and at
+   most one default state *)
+Theorem history_verdict_iff dicts nt h k mro cname :
+  published_free dicts ->
+  nth_error h k = Some (EInst mro cname) ->
+  ((exists r names descs,
+      nth_error (run_history {| w_dicts := dicts; w_nt := nt |} h) k = Some (OBound r names descs)) <->
+   exactly_one_first (bodies_of dicts mro) /\ at_most_one_default (bodies_of dicts mro)).
+Proof.
+  intros F N. rewrite (history_independent dicts nt h k mro cname F N).
+  unfold class_outcome, instantiate. fold (bodies_of dicts mro).
+  rewrite <- (build_ok_iff (bodies_of dicts mro)). split.
+  - intros (r & names & descs & H). destruct (build_states (bodies_of dicts mro)) as [r'|e]; [|discriminate].
+    exists r'. reflexivity.
+  - intros [r H]. rewrite H. exists r, (r_names r), (r_descs r). reflexivity.
+Qed.
+
+(* an attempt that raises changes nothing *)
+Theorem failed_attempt_no_effect w mro cname w' e :
+  step w (EInst mro cname) = (w', ORaised e) -> w' = w.
+Proof.
+  cbn [step]. destruct (instantiate (w_dicts w) mro); intros H; inversion H; reflexivity.
+Qed.
+
+(* ---- accepted modules: no state is called like a StateMachine attribute -- *)
+
+Definition all_states (P : sdata -> Prop) (d : dict member) : Prop :=
+  forall k s, In (k, MState s) d -> P s.
+
+Lemma eval_body_all reserved dicts (P : sdata -> Prop) :
+  (forall d s, construct reserved d = Ok s -> P s) ->
+  (forall d, In d dicts -> all_states P d) ->
+  forall b ns0 ns, all_states P ns0 -> eval_body reserved dicts b ns0 = Ok ns -> all_states P ns.
+Proof.
+  intros HC HD. induction b as [|[k m] r IH]; intros ns0 ns H0; cbn [eval_body].
+  - intros E. inversion E; subst. exact H0.
+  - destruct (eval_member reserved dicts ns0 m) as [v|e] eqn:EM; [|discriminate].
+    apply IH. intros k' s' I. apply In_dict_set in I. destruct I as [[_ E]|I]; [|exact (H0 k' s' I)].
+    subst v. destruct m as [d| |k2|c k2]; cbn [eval_member] in EM.
+    + destruct (construct reserved d) as [s|e] eqn:C; [|discriminate]. inversion EM; subst. exact (HC d s' C).
+    + discriminate.
+    + destruct (dict_get k2 ns0) as [v|] eqn:G; [|discriminate]. inversion EM; subst.
+      apply dict_get_In in G. exact (H0 k2 s' G).
+    + unfold class_attr in EM. destruct (nth_error dicts c) as [d|] eqn:N; [|discriminate].
+      destruct (dict_get k2 d) as [v|] eqn:G; [|discriminate]. inversion EM; subst.
+      apply dict_get_In in G. apply nth_error_In in N. exact (HD d N k2 s' G).
+Qed.
+
+Lemma define_from_all reserved (P : sdata -> Prop) :
+  (forall d s, construct reserved d = Ok s -> P s) ->
+  forall cs idx known dicts ds,
+  (forall d, In d dicts -> all_states P d) ->
+  define_from reserved idx cs known dicts = Ok ds ->
+  forall d, In d ds -> all_states P d.
+Proof.
+  intros HC. induction cs as [|c r IH]; intros idx known dicts ds HD; cbn [define_from].
+  - intros E. inversion E; subst. exact HD.
+  - unfold define_class.
+    destruct (eval_body reserved dicts (c_body c) []) as [ns|e] eqn:EB; [|discriminate].
+    destruct (set_names (is_sm known (c_bases c)) ns) as [u|e]; [|discriminate].
+    apply IH. intros d I. apply in_app_or in I. destruct I as [I|[I|[]]]; [exact (HD d I)|]. subst d.
+    intros k s J. apply in_app_or in J. destruct J as [J|J].
+    + refine (eval_body_all reserved dicts P HC HD _ [] ns _ EB k s J). intros k' s' [].
+    + apply in_map_iff in J. destruct J as [x [X _]]. discriminate.
+Qed.
+
+Theorem define_all_names_free reserved cs ds : define_all reserved cs = Ok ds ->
+  forall d k s, In d ds -> In (k, MState s) d -> k = s_name s /\ ~ In k reserved.
+Proof.
+  intros D d k s I J.
+  assert (N : ~ In (s_name s) reserved).
+  { refine (define_from_all reserved (fun s => ~ In (s_name s) reserved) _ cs 0 [] [] ds _ D d I k s J).
+    - intros d0 s0 C. destruct (proj1 (construct_ok_iff reserved d0) (ex_intro _ s0 C)) as [A _].
+      rewrite (proj1 (proj2 (proj2 (construct_ok reserved d0 s0 C)))). exact A.
+    - intros d0 []. }
+  apply In_nth_error in I. destruct I as [i I].
+  destruct (define_all_wf reserved cs ds D i d k s I J) as [E _]. split; [exact E|]. rewrite E. exact N.
+Qed.
+
+(* the classes of an accepted module, instantiated and bound in any order,
+   any number of times *)
+Theorem history_module reserved cs ds nt h k mro cname :
+  In "state_names" reserved -> In "state_descriptions" reserved ->
+  define_all reserved cs = Ok ds ->
+  nth_error h k = Some (EInst mro cname) ->
+  nth_error (run_history {| w_dicts := ds; w_nt := nt |} h) k = Some (class_outcome ds mro).
+Proof.
+  intros R1 R2 D N. apply (history_independent ds nt h k mro cname); [|exact N].
+  intros d k' s I J. destruct (define_all_names_free reserved cs ds D d k' s I J) as [_ F].
+  split; intros E; subst k'; contradiction.
+Qed.
